@@ -145,9 +145,12 @@ func (r *replication) replicate(c *conn, req *appendReq) error {
 		}
 
 		if r.nextIndex < r.ldrLastIndex && !r.log.Contains(r.nextIndex) {
-			if err := r.sendInstallSnapReq(c, req); err == nil {
-				continue
+			// on failure the conn is in an unknown state (the response may still
+			// arrive): it must not be used for pipelining
+			if err := r.sendInstallSnapReq(c, req); err != nil {
+				return err
 			}
+			continue
 		}
 
 		// todo: before starting pipeline, check if sending snap
